@@ -343,7 +343,7 @@ where
     let operand = D::from(operand);
     let mut r = operand;
 
-    for _i in 1..exponent.abs() {
+    for _i in 1..exponent.unsigned_abs() {
         r = if let Some(r) = r.checked_mul(operand) {
             r
         } else {
